@@ -32,6 +32,40 @@ chk('C15', 'model_checking',
     'symbolic execution (CrossHair+z3) of real lock code from symbolic invariant states; inductive step',
     'DESIGN.md section 3 C15', 'E3')
 
+chk('C10', 'translation_validation',
+    'Every straight-line program within the bound (<=3 statements exhaustively, 4 without piecewise; 3 assignables, 3 '
+    'leaves, reassignment, self reference, piecewise, ODE templates) is run through the real dataflow analyses and z3 '
+    'decides, for all numeric environments, agreement with an independent sequential reference interpreter: '
+    'full_expression equals the executed value, every leaf missing from dependencies() is semantically irrelevant, '
+    'remove_symbol_definitions preserves every remaining value, subs/reassign/find_assignment match the reference edit.',
+    'Trusted: the reference interpreter (lib/semeq.py) and the sympy->z3 translation (polynomial/piecewise fragment, no '
+    'uninterpreted functions needed here). Programs are enumerated, numeric inputs are solver-decided; sat models are '
+    'replayed numerically on pharmpy expressions. Programs longer than the bound are outside the claim.',
+    'z3 equivalence / semantic-dependency queries over enumerated programs (translation validation)',
+    'DESIGN.md section 3 C10', 'E2')
+
+chk('C05', 'translation_validation',
+    'For all digraphs on <=3 named compartments x output subsets x dose placement (plus Michaelis-Menten, input, '
+    'lag/bioavailability variants and all builder histories of length <=2 from 4 seeds) z3 decides, for all rate and '
+    'amount values, that eqs, compartmental_matrix, amounts, names and zero_order_inputs describe the system the builder '
+    'calls declared (harness-kept table keyed by compartment name): per-compartment balance, mass balance, M*A+u == eqs '
+    'in one order, conversion back, subs and dict round trip.',
+    'Trusted: the harness table of declared flows; sympy->z3 translation; rates positive. n>3 (quick) and longer '
+    'histories are outside the claim.',
+    'z3 entrywise identities between pharmpy-produced ODE views and the declared graph',
+    'DESIGN.md section 3 C05', 'E2')
+
+chk('C16', 'model_checking',
+    'The real transaction/snapshot/store_model/retrieve_model code runs under CrossHair over an in-memory file system; '
+    'the crash point (before any of the first 30 file-system operations, torn writes included), the two stored models '
+    'and the dataset sharing are symbolic. After restart: readers get a refusal or a complete entry, committed entries '
+    'are intact, every key that was not mid-transaction can be stored and retrieved. Annotations and log lines are '
+    'checked verbatim on symbolic strings.',
+    'Trusted: in-memory FS contract, token-level models of writers/ModelHash, serialised transactions (C15). '
+    'Counterexamples are re-enacted on a real directory with real models and writers before being reported.',
+    'symbolic execution (CrossHair+z3) of real protocol code with symbolic crash point over a model file system',
+    'DESIGN.md section 3 C16', 'E3')
+
 NA['C14'] = ('derivations are vectorised pandas pipelines (groupby/cumsum/explode/query); CrossHair realises at the '
              'first DataFrame call and no faithful SMT semantics of pandas exists here; solver-generated datasets '
              'would be sampling')
